@@ -253,9 +253,11 @@ def product_cases():
                         man[member] = {"suit-digest-algorithm-id": alg, "suit-digest-bytes": "00" * G.DIGEST_LEN[alg]}
                         if mode == "severed-present":
                             env[member] = body
+                    wrong = "11" * G.DIGEST_LEN[alg]
                     desc = {
                         "SUIT_Envelope_Tagged": {
-                            "suit-authentication-wrapper": {"SuitDigest": {"suit-digest-algorithm-id": alg, "suit-digest-bytes": "11" * G.DIGEST_LEN[alg]}},
+                            # the supplied (wrong) wrapper digest alternates between the hex-string and the {raw: hex} notation
+                            "suit-authentication-wrapper": {"SuitDigest": {"suit-digest-algorithm-id": alg, "suit-digest-bytes": wrong if target % 2 else {"raw": wrong}}},
                             "suit-manifest": man,
                             **env,
                         }
